@@ -1,6 +1,6 @@
 """Registry of engines and checks (what ./check runs for each property)."""
 
-SETUP_VARIANTS = ["plain", "asan", "fips", "tsan", "fips-tsan"]
+SETUP_VARIANTS = ["plain", "asan", "fips", "tsan", "fips-tsan", "noparam"]
 
 ENGINES = {
     "hashmb": dict(src=["harness/hashmb.c", "harness/hashbig.c", "harness/hashalgs.c"]),
@@ -492,9 +492,10 @@ CHECKS = {
               "length classes) run through the trampoline with random keys; after every call all 32 vector registers (each 16-byte lane of the full 512 bits) and the 64 KiB below "
               "the caller's stack pointer (every byte offset; the zone is pattern-filled right before the call) are searched for the case's secret blocks computed by the reference: "
               "raw key halves, every encryption and decryption round key, GHASH key H raw and byte-reflected, every 16-byte entry of the hash-key table as stored by precompute, "
-              "E_K2(tweak). distinct_nontrivial = distinct (function, argument class)"),
+              "E_K2(tweak). The same scenarios also run on a build with SAFE_PARAM=n (SAFE_DATA is a separate, still default option there). distinct_nontrivial = distinct (function, argument class)"),
         assumptions=TRUST + ["a secret kept in another encoding (masked, split across registers) is not recognised; general-purpose registers are not scanned (the property names vector registers and stack)"],
-        tasks=tramp_tasks("C14", "secrets", ["gcm", "xts", "cbc"], 400, 12000),
+        tasks=lambda tier: tramp_tasks("C14", "secrets", ["gcm", "xts", "cbc"], 400, 12000)(tier)
+        + [dict(engine="trampeng", variant="noparam", args=["--prop", "C14", "--mode", "secrets", "--what", g, "--from", 0, "--count", 60 if tier == "quick" else 1500]) for g in ("gcm", "xts", "cbc")],
     ),
     "C20": dict(
         level="exploration", evaluations=["paired_scenarios", "paired_histories"], must_observe=["paired_scenarios", "paired_histories", "tramp_calls"],
@@ -519,7 +520,9 @@ CHECKS = {
               "In both tiers random histories on all 28 pairs x 3 routes additionally move an idle context's documented running total (and the model's) forward by whole blocks to just below a threshold, so the following segments cross it at every residue without hashing gigabytes (the expected digest is the reference hash of the submitted bytes padded with the adjusted total). Small random histories add the total_length check at every hand-back. "
               "distinct_nontrivial = distinct (family, threshold, running total mod 2 blocks, flags, above/below threshold)"),
         assumptions=TRUST + ["OpenSSL 3.0 EVP digests as oracle for multi-GiB streams"],
-        tasks=lambda tier: big_tasks(tier) + pairs_tasks("C15"),
+        tasks=lambda tier: big_tasks(tier) + pairs_tasks("C15") + ([dict(engine="hashmb", variant="plain", timeout=7000, args=["--prop", "C15", "--mode", "big", "--alg", alg, "--fam", f, "--thr", "decay", "--watchdog", 6900])
+                                                                      for alg, fl in (("sha1", ["sse", "avx", "avx2", "avx512", "sse_ni", "avx512_ni"]), ("sha256", ["sse", "avx", "avx2", "avx512", "sse_ni", "avx512_ni"]), ("sha512", ["sse", "avx", "avx2", "avx512"]),
+                                                                                      ("md5", ["sse", "avx", "avx2", "avx512"]), ("sm3", ["avx2", "avx512"])) for f in fl] if tier == "thorough" else []),
     ),
     "C16": dict(
         level="exploration", evaluations=["null_subset_calls", "bad_scalar_calls", "valid_calls", "legacy_comparisons"],
